@@ -215,6 +215,19 @@ func (u *controlUnit) shouldUseForwarding(runner *risc.InstructionRunnerPc, haza
 	}
 
 	// Can we use forwarding with an instruction pushed in the previous cycle
+	// A runner pushed earlier in the current cycle that writes a register read
+	// by this runner is its real producer: forwarding from an older one would
+	// hand over a stale value.
+	for currentRunner := range u.pushedRunnersInCurrentCycle {
+		for _, writeRegister := range currentRunner.Runner.WriteRegisters() {
+			for _, readRegister := range runner.Runner.ReadRegisters() {
+				if readRegister != risc.Zero && readRegister == writeRegister {
+					return false, nil, risc.Zero
+				}
+			}
+		}
+	}
+
 	// Several runners pushed in the previous cycle may write the same register
 	// (renaming); the value to forward is the one of the latest in program order.
 	var latest *risc.InstructionRunnerPc
